@@ -57,8 +57,8 @@ mutantN('C14-hoist-copy', 'C14', 'R14.c', [
     (PT, "                value_copy = copy.deepcopy(value) \n", "                pass\n"),
     (PT, "        types1,types2 = index\n", "        types1,types2 = index\n        value_copy = copy.deepcopy(value)\n")])
 mutant('C14-raw-value', 'C14', 'R14.c', PT, 'value_copy = copy.deepcopy(value) ', 'value_copy = value')
-mutant('C14-no-mirror', 'C14', 'R14.m', PT, "                if self.symmetric and t1!=t2:\n                    self.values[t2][t1] = value_copy\n", '')
-mutant('C14-mirror-always', 'C14', 'R14.m', PT, 'if self.symmetric and t1!=t2:', 'if t1!=t2:')
+mutant('C14-no-mirror', 'C14', 'R14.c', PT, "                if self.symmetric and t1!=t2:\n                    self.values[t2][t1] = value_copy\n", '')
+mutant('C14-mirror-always', 'C14', 'R14.c', PT, 'if self.symmetric and t1!=t2:', 'if t1!=t2:')
 mutant('C14-setunset-overwrite', 'C14', 'R14.u', PT, "            if v is None:\n                self[t1,t2] = value", "            if v is not None:\n                self[t1,t2] = value")
 mutant('C14-check-skip-diag', 'C14', 'R14.k', PT, "        for i,t,val in self.iterpairs():\n            if val is None:\n                raise ValueError('PairTable {} is not fully specified!'",
        "        for i,t,val in self.iterpairs(diagonal=False):\n            if val is None:\n                raise ValueError('PairTable {} is not fully specified!'")
